@@ -830,6 +830,7 @@ def sessions(txs):
 
 
 FULL_DEPTH_SESSIONS = {"throwing-first-op"}
+INTERACTIVE_TX_COMMANDS = ["print", "step", "step", "step", "rewind", "print", "stack"]
 
 
 def exec_pair_lines():
